@@ -37,7 +37,7 @@ R.contract('trusted:shutil.rmtree', trusted=True, params={'path': 'Path'},
     note='removes the subtree of `path` without following links out of it')
 
 R.cls(LS, fields={'_storage_path': 'Path'},
-    invariant=[C("resolve(self._storage_path) == self._storage_path", 'ROOT: the storage root is kept in canonical form')])
+    invariant=[C("resolve(self._storage_path) == self._storage_path", 'ROOT: the storage root is fixed in canonical (absolute) form at construction, so later operations cannot be redirected by a change of working directory')])
 
 CONFINED = [
     C("forall('Path', lambda p: implies((p in FS_DIR_OPS) and (p not in old(FS_DIR_OPS)), (resolve(p) == p) and (parent(p) == self._storage_path)))",
